@@ -1,6 +1,8 @@
 import DS.Driver.Common
 import DS.Driver.ErrFmtD
 import DS.Model.VMRun
+import DS.Model.Verify
+import DS.Model.VerifyRun
 namespace DS.Driver
 open DS.VM
 
@@ -191,14 +193,15 @@ def canonAttrsOf (h : Heap) (attrs : Nat) : String :=
 /-- vmexec <cfg> <seedhex> <hexsrc> <offset> <dump tokens...> -/
 def vmLine (toks : List String) : String :=
   match toks with
-  | "vmexec" :: cfg :: seed :: src :: off :: dump =>
+  | cmd :: cfg :: seed :: src :: off :: dump =>
+    if cmd != "vmexec" && cmd != "skelexec" then "bad-op" else
     match hexToNat? seed, bytesOf src, off.toNat?, parseCode 64 dump #[] with
     | some sd, some srcB, some offset, some (code, heap, []) =>
       let (heap, attrs) := heap.alloc (.dict [])
       let g : G := { heap := heap, rng := sd, cfg := parseCfgTok cfg, ctxs := #[{ attrs := attrs, up := none, numOp := 0, depth := 0 }],
                      stLog := [], src := srcB }
       let fr : Frame := { ctx := 0, code := code, stack := newStack, srcBytes := srcB }
-      (match evalLoop 400000 g fr with
+      (match (if cmd == "skelexec" then evalLoopSk 400000 g fr false false else evalLoop 400000 g fr) with
        | (g', .ok out) =>
          let ret := out.top.getD .null
          let retS := valToString g'.heap ret
@@ -213,6 +216,42 @@ def vmLine (toks : List String) : String :=
        | (_, .unsup w) => "unsup " ++ w
        | (_, .diverge) => "diverge")
     | _, _, _, _ => "bad-dump"
+  | _ => "bad-op"
+
+/-- annotation spans of a body must lie inside the text that body's VM indexes (Matched for the main program, the
+    stored expression text for a function / computed body) -/
+def spansInside (c : Code) (len : Nat) : Option String :=
+  let rec go (i : Nat) (l : List Instr) : Option String :=
+    match l with
+    | [] => none
+    | .markDetail b e :: r =>
+      if b < 0 || e < b || e > (len : Int) then some s!"pc {i}: annotation span [{b},{e}) outside the body's own text (length {len})"
+      else go (i + 1) r
+    | _ :: r => go (i + 1) r
+  go 0 c.toList
+
+/-- verify <matched-length> <dump tokens...> : runs the bytecode verifier over the main program and every nested body -/
+def verifyLine (toks : List String) : String :=
+  match toks with
+  | "verify" :: off :: dump =>
+    (match off.toNat?, parseCode 64 dump #[] with
+     | some offset, some (code, heap, []) =>
+       let bodies : List (Code × Nat) := (code, offset) :: heap.toList.filterMap (fun o => match o with
+         | .func _ _ e c => some (c, e.utf8ByteSize)
+         | .comp e _ c => some (c, e.utf8ByteSize)
+         | _ => none)
+       let rec go (i : Nat) (l : List (Code × Nat)) (n : Nat) : String :=
+         match l with
+         | [] => s!"ok bodies={i} instrs={n}"
+         | (c, len) :: r =>
+           (match DS.Verify.verifyCode c with
+            | .ok _ =>
+              (match spansInside c len with
+               | none => go (i + 1) r (n + c.size)
+               | some e => s!"bad body={i} {hx e}")
+            | .error e => s!"bad body={i} {hx e}")
+       go 0 bodies 0
+     | _, _ => "bad-dump")
   | _ => "bad-op"
 
 end DS.Driver
